@@ -62,6 +62,9 @@ FIRST_LOOK = {  # recorded when the seed was first run, before any rule was touc
  "C35-10": "caught", "C35-11": "caught", "C35-12": "caught (as a renameio entry point other than WriteFile: a policy alarm)",
  # round 5 (five properties)
  "C17-4": "missed", "C17-5": "missed", "C17-6": "missed",
+ "C04-13": "missed", "C04-14": "missed", "C04-15": "missed",
+ "C28-13": "missed", "C28-14": "missed", "C28-15": "missed",
+ "C10-13": "caught", "C10-14": "missed by C10, caught by C07", "C10-15": "caught",
  "C10-10": "missed", "C10-11": "missed", "C10-12": "unknown-shape alarm only (a false one: R10e took `Pos{}` in reset() for state; corrected)",
 }
 def key(d):
